@@ -1,5 +1,5 @@
-"""C08 replay: the real repopulation step with random.sample and the spread
-norm scripted from the witness; the property is re-evaluated concretely."""
+"""C08 replay: the real repopulation step with random.sample and the real
+norm of covariances built to have the witness's spreads; the property is re-evaluated concretely."""
 import itertools
 
 import numpy as np
@@ -20,7 +20,15 @@ def _run(w):
     state = model_state.ModelState.empty_model(args, np.zeros((P, 1)))
     state.point_labels = list(labels)
     for k, cl in enumerate(state.clusters):
-        cl.computed_covariance = np.array([float(k)])
+        # a real 2-D covariance whose Frobenius norm is the witness's spread (diag(s, 0): sqrt(s*s) == s
+        # exactly in binary64); when the engine also chose a spectral norm, diag(spec, sqrt(s^2 - spec^2))
+        sk = abs(spreads[k])
+        if 'spec_%d' % k in inp:
+            t = min(abs(flt(inp['spec_%d' % k])), sk)
+            cl.computed_covariance = np.diag([t, float(np.sqrt(max(sk * sk - t * t, 0.0)))])
+        else:
+            cl.computed_covariance = np.diag([sk, 0.0])
+    spreads = [float(np.sqrt(np.sum(np.square(cl.computed_covariance)))) for cl in state.clusters]
     calls = {'n': 0}
 
     class Rnd:
@@ -33,10 +41,8 @@ def _run(w):
             if len(set(idx)) != k or any(x >= len(pop) for x in idx):
                 idx = list(range(k))
             return [pop[x] for x in idx]
-    real_norm = np.linalg.norm
     old = cm.random
     cm.random = Rnd
-    np.linalg.norm = lambda v, *a, **kw: spreads[int(np.asarray(v).ravel()[0])]
     pre_members = [list(c.member_points) for c in state.clusters]
     pre_clusters = list(state.clusters)
     try:
@@ -47,7 +53,6 @@ def _run(w):
             new, raised = None, exc
     finally:
         cm.random = old
-        np.linalg.norm = real_norm
     return K, P, labels, m, spreads, state, new, raised, pre_members, pre_clusters
 
 
